@@ -16,7 +16,8 @@
 //           strtod (exact).  Values are de-duplicated exactly (sharding is by value hash, so equal values meet in
 //           one shard); id = 10 * (running index of generated value) + q.
 //   oracle: exact binary expansion of v (glibc "%.1074f"), rounded here by inspecting the digits after position q
-//           (below half / above half / exact tie -> either neighbour); cross-checked against glibc "%.*f".
+//           (below half / above half / exact tie -> either neighbour, or only the even one with ties=even; the histogram
+//           shows which one was produced); cross-checked against glibc "%.*f".
 //           parse: bit-equal to glibc strtod(text).  (A decimal with <= 9 fraction digits and integer part < 2^31 is
 //           never exactly halfway between two doubles: if it is dyadic at all it has <= 40 significant bits and is
 //           itself a double.  So "within half an ulp" <=> "equals the correctly rounded strtod result".)
@@ -38,7 +39,7 @@ extern "C" const char *__asan_default_options() { return "detect_leaks=0:quarant
 
 typedef std::vector<std::string> Tags;
 static vh::Run *RP;
-static bool use_guard = false;
+static bool use_guard = false, ties_even = false;
 
 //----------------------------------------------------------------------------------------------------------------
 // cheap counting of violation classes that can have 2^31 members: first 3 go through R.viol, the rest are counted
@@ -355,7 +356,7 @@ struct Expect {		// what the exact value of v rounds to at q fraction digits
 	char glibc[64];		// snprintf("%.*f") normalised
 	bool self_ok;
 	bool accepts(const char *n) const { return dir == 2 ? (!strcmp(n, lo) || !strcmp(n, hi)) : dir == 1 ? !strcmp(n, hi) : !strcmp(n, lo); }
-	std::string show() const { return dir == 2 ? std::string(lo) + " or " + hi + " (exact tie)" : dir == 1 ? hi : lo; }
+	std::string show() const { return dir == 2 ? (ties_even ? std::string(glibc) + " (exact tie, to even)" : std::string(lo) + " or " + hi + " (exact tie)") : dir == 1 ? hi : lo; }
 };
 static char expbuf[1500];	// exact expansion of |v|, refreshed per value
 static double expfor = NAN;
@@ -423,7 +424,8 @@ static void judge_flt(double v, int q, const FltObs& o, int stages, const std::s
 		if (syn == 2) { mode = "not-a-decimal"; return; }
 		char n[128]; norm(t, n);
 		if (!e.accepts(n)) { mode = (!strcmp(n, e.lo) || !strcmp(n, e.hi)) ? "wrong-neighbour" : "wrong-number"; return; }
-		if (fd > q) { clause = "at-most-p-fraction-digits"; mode = "too-many-fraction-digits"; }
+		if (fd > q) { clause = "at-most-p-fraction-digits"; mode = "too-many-fraction-digits"; return; }
+		if (ties_even && e.dir == 2 && strcmp(n, e.glibc)) mode = "exact-tie-not-to-even";	// only with ties=even (default: either neighbour)
 	};
 	const char *td = o.t_direct; const size_t tdl = strlen(td);
 	const char *clause, *mode;
@@ -608,6 +610,7 @@ int main(int argc, char **argv)
 {
 	vh::Run R(argc, argv); RP = &R;
 	use_guard = R.args.num("guard", 0) != 0;
+	ties_even = R.args.get("ties") == "even";
 	// Symbolising a sanitizer stack trace costs ~0.2 s per report; the sweep only needs the report's first line.
 	// (Replays keep the driver's options and show the full trace.)
 	if (use_guard && !R.single && !getenv("C08_REEXEC")) {
